@@ -144,7 +144,7 @@ func init() {
 			res := g.do("render " + w)
 			viol := oracleCSV(g, t, res)
 			rs := g.do("renderstr " + w)
-			if cl, f := parseRes(rs); cl != "ok" && f["str"] != "-" {
+			if cl, f := parseRes(rs); cl != "ok" && f["str"] != "-" && f["str"] != "" {
 				viol = append(viol, "Render returned text together with an error")
 			}
 			return viol, nil, g.x.tables[idOf(t)].NRows() > 0 || g.x.tables[idOf(t)].Headers() != nil
